@@ -15,15 +15,18 @@
 (***************************************************************************)
 EXTENDS Sched, Json
 
-CONSTANT TraceFile
+CONSTANTS TraceFile,
+          SYM   \* FALSE: recorded worker goroutines 1..N are the initial workers, replacements follow in order
+                \* of birth (the recorder's numbering); TRUE: TLC chooses which goroutine is which (expensive)
 
 TF == JsonDeserialize(TraceFile)
 NT == Len(TF.traces)
 
 VARIABLES ti,     \* index of the current trace
           ci, li, \* cursors into the caller's and the loop's event lists
-          wi      \* cursor per worker goroutine
-tvars == <<vars, ti, ci, li, wi>>
+          wi,     \* cursor per worker goroutine
+          ninit   \* initial workers not yet identified with a recorded goroutine
+tvars == <<vars, ti, ci, li, wi, ninit>>
 
 T == TF.traces[ti]
 CE == T.caller
@@ -43,7 +46,7 @@ StateFor(t) ==
   /\ remaining = [j \in Jobs |-> 0] /\ consumers = [j \in Jobs |-> <<>>]
   /\ jdone = [j \in Jobs |-> FALSE] /\ jerr = [j \in Jobs |-> NOERR] /\ invalid = [j \in Jobs |-> FALSE]
   /\ serr = <<>>
-  /\ wpc = [w \in Workers |-> IF w <= t.n THEN "recv" ELSE "unborn"]
+  /\ wpc = [w \in Workers |-> IF ~SYM /\ w <= t.n THEN "recv" ELSE "unborn"]      \* SYM: see TClaim
   /\ wjob = [w \in Workers |-> 0] /\ wres = [w \in Workers |-> NOERR] /\ nextW = t.n + 1
   /\ started = [j \in Jobs |-> 0] /\ endst = [j \in Jobs |-> "none"] /\ doomedH = {}
   /\ owner = [j \in Jobs |-> "caller"] /\ ctxAtClose = FALSE
@@ -60,12 +63,13 @@ StateForP(t) ==
   /\ remaining' = [j \in Jobs |-> 0] /\ consumers' = [j \in Jobs |-> <<>>]
   /\ jdone' = [j \in Jobs |-> FALSE] /\ jerr' = [j \in Jobs |-> NOERR] /\ invalid' = [j \in Jobs |-> FALSE]
   /\ serr' = <<>>
-  /\ wpc' = [w \in Workers |-> IF w <= t.n THEN "recv" ELSE "unborn"]
+  /\ wpc' = [w \in Workers |-> IF ~SYM /\ w <= t.n THEN "recv" ELSE "unborn"]
   /\ wjob' = [w \in Workers |-> 0] /\ wres' = [w \in Workers |-> NOERR] /\ nextW' = t.n + 1
   /\ started' = [j \in Jobs |-> 0] /\ endst' = [j \in Jobs |-> "none"] /\ doomedH' = {}
   /\ owner' = [j \in Jobs |-> "caller"] /\ ctxAtClose' = FALSE
 
 TInit == /\ ti = 1 /\ ci = 1 /\ li = 1 /\ wi = [w \in Workers |-> 1]
+         /\ ninit = IF SYM /\ NT >= 1 THEN TF.traces[1].n ELSE 0
          /\ IF NT >= 1 THEN StateFor(TF.traces[1])
             ELSE StateFor([nj |-> 0, n |-> 1, coe |-> FALSE, deps |-> <<>>, jctx |-> <<>>])
 
@@ -85,15 +89,15 @@ SameClass(tok, cls) == ClassOf(tok) = cls \/ (ClassOf(tok) = "E" /\ cls \in {"CT
 
 \* ---- caller
 TCallerBegin == CNext("c_enq_begin") /\ CE[ci].job = cpc /\ CE[ci].deps = deps[cpc]
-                /\ UNCHANGED <<vars, ti, li, wi>>
-TCallerEnq == CNext("c_enq") /\ cpc = CE[ci].job /\ CallerEnqueue /\ UNCHANGED <<ti, li, wi>>
-TCallerClose == CNext("c_close") /\ CallerWaitClose /\ UNCHANGED <<ti, li, wi>>
+                /\ UNCHANGED <<vars, ti, li, wi, ninit>>
+TCallerEnq == CNext("c_enq") /\ cpc = CE[ci].job /\ CallerEnqueue /\ UNCHANGED <<ti, li, wi, ninit>>
+TCallerClose == CNext("c_close") /\ CallerWaitClose /\ UNCHANGED <<ti, li, wi, ninit>>
 \* The cancellation of the context is not logged by the scheduler's hooks.  Nothing but the
 \* worker's check and Wait reads the context, so it is enough to let it happen immediately
 \* before the first step that observes it done.
 TCallerRetCtx == /\ CNext("c_ret_ctx") /\ cpc = nJ + 2 /\ cres' = <<"ctx">> /\ cpc' = nJ + 3 /\ ctx' = "done" /\ UNCHANGED ctx2
-                 /\ UNCHANGED <<inVars, chanVars, loopVars, jobVars, wrkVars, histVars, ti, li, wi>>
-TCallerRetFin == /\ CNext("c_ret_fin") /\ UNCHANGED <<ti, li, wi>>
+                 /\ UNCHANGED <<inVars, chanVars, loopVars, jobVars, wrkVars, histVars, ti, li, wi, ninit>>
+TCallerRetFin == /\ CNext("c_ret_fin") /\ UNCHANGED <<ti, li, wi, ninit>>
                  /\ \/ CallerWaitFin
                     \/ ctx = "live" /\ ctx' = "done" /\ UNCHANGED ctx2 /\ CallerWaitFinAs("done")
                  /\ (CE[ci].err = "nil") = (cres' = <<"nil">>)
@@ -101,38 +105,45 @@ TCallerRetFin == /\ CNext("c_ret_fin") /\ UNCHANGED <<ti, li, wi>>
 \* ---- loop
 TDispatch(w) == /\ LNext("l_dispatch") /\ WNext(w, "w_recv")
                 /\ LE[li].job = WE(w)[wi[w]].job /\ ready # <<>> /\ Head(ready) = LE[li].job
-                /\ LoopDispatch(w) /\ Counters /\ UNCHANGED <<ti, ci>>
+                /\ LoopDispatch(w) /\ Counters /\ UNCHANGED <<ti, ci, ninit>>
 TRecvEnq == /\ LNext("l_recv_enq") /\ enq # <<>> /\ Head(enq) = LE[li].job
-            /\ LoopRecvEnqueue /\ Counters /\ UNCHANGED <<ti, ci, wi>>
-TRecvClosed == LNext("l_recv_closed") /\ LoopRecvClosed /\ Counters /\ UNCHANGED <<ti, ci, wi>>
+            /\ LoopRecvEnqueue /\ Counters /\ UNCHANGED <<ti, ci, wi, ninit>>
+TRecvClosed == LNext("l_recv_closed") /\ LoopRecvClosed /\ Counters /\ UNCHANGED <<ti, ci, wi, ninit>>
 TRecvDone == /\ LNext("l_recv_done") /\ donec # <<>>
              /\ Head(donec)[1] = LE[li].job /\ SameClass(Head(donec)[2], LE[li].err)
-             /\ LoopRecvDone /\ Counters /\ UNCHANGED <<ti, ci, wi>>
+             /\ LoopRecvDone /\ Counters /\ UNCHANGED <<ti, ci, wi, ninit>>
 \* the ticker arm changes nothing; the logged counters must be the current ones
 TTick == /\ LNext("l_tick") /\ lpc = "sel"
          /\ LE[li].p = pending /\ LE[li].o = ongoing /\ LE[li].w = waiting /\ LE[li].r = Len(ready)
-         /\ UNCHANGED <<vars, ti, ci, wi>>
-TDrainRecv == LNext("l_drain_recv") /\ LoopDrainRecv /\ UNCHANGED <<ti, ci, wi>>
-TDrainEnd == LNext("l_drain_end") /\ LoopDrainEnd /\ UNCHANGED <<ti, ci, wi>>
+         /\ UNCHANGED <<vars, ti, ci, wi, ninit>>
+TDrainRecv == LNext("l_drain_recv") /\ LoopDrainRecv /\ UNCHANGED <<ti, ci, wi, ninit>>
+TDrainEnd == LNext("l_drain_end") /\ LoopDrainEnd /\ UNCHANGED <<ti, ci, wi, ninit>>
 \* close(readyc) and close(finishedc) are not logged: silent, in this order, after l_drain_end
-TCloseReady == Live /\ LoopCloseReady /\ UNCHANGED <<ti, ci, li, wi>>
-TCloseFin == Live /\ LoopCloseFin /\ UNCHANGED <<ti, ci, li, wi>>
-TLoopExit == LNext("l_exit") /\ lpc = "exit" /\ UNCHANGED <<vars, ti, ci, wi>>
+TCloseReady == Live /\ LoopCloseReady /\ UNCHANGED <<ti, ci, li, wi, ninit>>
+TCloseFin == Live /\ LoopCloseFin /\ UNCHANGED <<ti, ci, li, wi, ninit>>
+TLoopExit == LNext("l_exit") /\ lpc = "exit" /\ UNCHANGED <<vars, ti, ci, wi, ninit>>
 
 \* ---- workers
-TWBegin(w) == WNext(w, "w_begin") /\ wpc[w] # "unborn" /\ UNCHANGED <<vars, ti, ci, li>>
-TWStart(w) == WNext(w, "w_start") /\ WorkerCheck(w) /\ wpc'[w] = "run" /\ UNCHANGED <<ti, ci, li>>
+TWBegin(w) == WNext(w, "w_begin") /\ wpc[w] # "unborn" /\ UNCHANGED <<vars, ti, ci, li, ninit>>
+TWStart(w) == WNext(w, "w_start") /\ WorkerCheck(w) /\ wpc'[w] = "run" /\ UNCHANGED <<ti, ci, li, ninit>>
 TWSkipCtx(w) == /\ WNext(w, "w_skip_ctx") /\ WorkerCheckAs(w, "done")
                 /\ IF jctx[wjob[w]] = 2 THEN ctx2' = "done" /\ UNCHANGED ctx ELSE ctx' = "done" /\ UNCHANGED ctx2
-                /\ UNCHANGED <<ti, ci, li>>
-TWSkipInv(w) == WNext(w, "w_skip_inv") /\ WorkerCheck(w) /\ wres'[w] = INVERR /\ UNCHANGED <<ti, ci, li>>
+                /\ UNCHANGED <<ti, ci, li, ninit>>
+TWSkipInv(w) == WNext(w, "w_skip_inv") /\ WorkerCheck(w) /\ wres'[w] = INVERR /\ UNCHANGED <<ti, ci, li, ninit>>
 TWEnd(w) == /\ WNext(w, "w_end")
             /\ WorkerRunEnd(w, IF WE(w)[wi[w]].err = "nil" THEN "ok" ELSE "err")
-            /\ UNCHANGED <<ti, ci, li>>
-TWSent(w) == WNext(w, "w_sent") /\ WorkerSend(w) /\ UNCHANGED <<ti, ci, li>>
-TWDying(w) == WNext(w, "w_dying") /\ WorkerRunEnd(w, "goexit") /\ UNCHANGED <<ti, ci, li>>
-TWDSent(w) == WNext(w, "w_dsent") /\ WorkerDSend(w) /\ UNCHANGED <<ti, ci, li>>
-TWExit(w) == WNext(w, "w_exit") /\ WorkerExit(w) /\ UNCHANGED <<ti, ci, li>>
+            /\ UNCHANGED <<ti, ci, li, ninit>>
+TWSent(w) == WNext(w, "w_sent") /\ WorkerSend(w) /\ UNCHANGED <<ti, ci, li, ninit>>
+TWDying(w) == WNext(w, "w_dying") /\ WorkerRunEnd(w, "goexit") /\ UNCHANGED <<ti, ci, li, ninit>>
+\* Which recorded goroutine is an initial worker and which the replacement of which dying worker is not
+\* recorded: a recorded goroutine that has not been identified yet is claimed as one of the N initial workers
+\* (TClaim, silent), or comes to life as the replacement started by some w_dsent.
+TClaim(w) == /\ Live /\ ninit > 0 /\ wpc[w] = "unborn" /\ w <= NWk
+             /\ wpc' = [wpc EXCEPT ![w] = "recv"] /\ ninit' = ninit - 1
+             /\ UNCHANGED <<inVars, ctx, ctx2, callVars, chanVars, loopVars, jobVars, wjob, wres, nextW, histVars, ti, ci, li, wi>>
+TWDSent(w) == /\ WNext(w, "w_dsent") /\ UNCHANGED <<ti, ci, li, ninit>>
+              /\ IF SYM THEN \E r \in Workers : r <= NWk /\ WorkerDSendTo(w, r) ELSE WorkerDSend(w)
+TWExit(w) == WNext(w, "w_exit") /\ WorkerExit(w) /\ UNCHANGED <<ti, ci, li, ninit>>
 
 AllConsumed == /\ ci = Len(CE) + 1 /\ li = Len(LE) + 1
                /\ \A w \in Workers : wi[w] = Len(WE(w)) + 1
@@ -142,13 +153,14 @@ AllConsumed == /\ ci = Len(CE) + 1 /\ li = Len(LE) + 1
 TReset == /\ Live /\ AllConsumed
           /\ PrintT(<<"TRACE-ACCEPTED", ti, T.run>>)
           /\ ti' = ti + 1 /\ ci' = 1 /\ li' = 1 /\ wi' = [w \in Workers |-> 1]
+          /\ ninit' = IF SYM /\ ti + 1 <= NT THEN TF.traces[ti + 1].n ELSE 0
           /\ IF ti + 1 <= NT THEN StateForP(TF.traces[ti + 1])
              ELSE UNCHANGED vars
 
 TNext == \/ TCallerBegin \/ TCallerEnq \/ TCallerClose \/ TCallerRetCtx \/ TCallerRetFin
          \/ TRecvEnq \/ TRecvClosed \/ TRecvDone \/ TTick \/ TDrainRecv \/ TDrainEnd
          \/ TCloseReady \/ TCloseFin \/ TLoopExit
-         \/ \E w \in Workers : \/ TDispatch(w) \/ TWBegin(w) \/ TWStart(w) \/ TWSkipCtx(w) \/ TWSkipInv(w)
+         \/ \E w \in Workers : \/ TClaim(w) \/ TDispatch(w) \/ TWBegin(w) \/ TWStart(w) \/ TWSkipCtx(w) \/ TWSkipInv(w)
                                \/ TWEnd(w) \/ TWSent(w) \/ TWDying(w) \/ TWDSent(w) \/ TWExit(w)
          \/ TReset
 
